@@ -110,6 +110,9 @@ func init() {
 func SetOffset(d time.Duration) { offset.Store(int64(d)) }
 func Offset() time.Duration     { return time.Duration(offset.Load()) }
 
+// Advance moves the process-wide clock forward (a replica that applies its log slowly).
+func Advance(d time.Duration) { offset.Add(int64(d)) }
+
 func Now() time.Time {
 	if o := offset.Load(); o != 0 {
 		return time.Now().Add(time.Duration(o))
